@@ -7,6 +7,7 @@ import vlib
 import evalcommon as ec
 import conffam
 import proc
+import c15locale
 
 UNITS = [('seconds', 1), ('minutes', 60), ('hours', 3600), ('days', 86400), ('weeks', 604800), ('months', 2592000), ('years', 31536000)]
 TZS = ['UTC', 'Europe/Stockholm', 'America/New_York', 'Asia/Kolkata', 'Australia/Lord_Howe', 'Pacific/Auckland', 'America/St_Johns',
@@ -248,6 +249,12 @@ def run(rep):
         it = dict(it, what=it.pop('what_'), deviations_in_this_family=len(lit_bad), level='real parser and evaluator (harness h_expr)')
         rep.finding('unlisted', it)
     # the same family on the real binary (pinned clock): -n, -d and a real run on a maildir holding one message that is two hours old
+    # date text x locale (tools/c15locale.py): what a Date field carries besides the date - comments in ASCII / UTF-8 / 8-bit code pages,
+    # control bytes, encoded words, folds, blanks - under LC_ALL=C and C.utf8, through time_parse, the evaluator and the real binary
+    lstat, ldifs, lbad = c15locale.stage(rep, sc, h, env, rng, TZS[:-2])
+    bad_corr += lbad
+    for ld in ldifs:
+        ld.conclude('time.c <-> Model/Time.lean (%s)' % ld.name)
     tools = proc.Tools(sc)
     pcases = conffam.int_process_cases(rep.tier)
     with cf.ThreadPoolExecutor(vlib.NCPU) as ex:
@@ -263,7 +270,7 @@ def run(rep):
                        'examples': [dict(c.readable(), implementation=ec.impl_core(c), model=c.model) for c in bad_corr[:5]]}, False)
     vlib.lean_conclude(rep)
     rep.coverage.update({
-        'evaluations': d.evals + len(cases),
+        'evaluations': d.evals + len(cases) + lstat.get('tparse_evaluations', 0) + lstat.get('eval_cases', 0) + lstat.get('process_decisions', 0),
         'distinct_nontrivial': len(set(r for r, i in zip(reqs, impl) if i.startswith('OK'))) + stat['age_cases'],
         'rule': '%d zone strings against the offset formula; %d dates (instants 1970-2037 incl. both sides of DST switches, three layouts, '
                 'numeric zones -2359..+2359, GMT/UT/UTC, odd zones) parsed under %d TZ settings and compared with platform timegm minus zone '
@@ -271,13 +278,26 @@ def run(rep):
                 'name x 7 counts (acceptance, value, 32-bit overflow); %d integer literals (around 2^31, 2^32, 2^63, 2^64, k*2^64 + a valid age, 2^96, 2^128, '
                 '10^19, 10^20, 38 nines, per-unit bounds, leading zeros) x %d unit lexemes through the real parser and evaluator on a message two '
                 'hours old (accepted iff N x unit <= UINT32_MAX, age exactly N x unit, comparison by that age) and %d of them on the real binary '
-                '(-n, -d, real run: rejected with a diagnostic and the message left, or moved iff 7200 > N x unit); non-trivial = accepted/parsed inputs'
-                % (ntz, n, len(TZS), stat['age_cases'], len(conffam.int_literals(rep.tier)), len(conffam.unit_lexemes(rep.tier)), len(pcases)),
+                '(-n, -d, real run: rejected with a diagnostic and the message left, or moved iff 7200 > N x unit); date text x locale: %d Date fields '
+                '(three instants x %d kinds of text after the zone - nothing, blanks, comments in ASCII / UTF-8 / Latin-1, Shift_JIS, KOI8-R and other '
+                'invalid UTF-8, nested and unbalanced comments, control bytes, CRLF, RFC 2047 encoded words, folded comments - and the shapes of the date '
+                'proper: blanks after the colon, folds at every gap with blank and TAB continuation, letter case, zones -2359..+2359 and GMT/UT/UTC), '
+                '%d texts that are no date and %d outside the quantifier, each under LC_ALL=C and LC_ALL=C.utf8 (harness / binary and Lean driver under '
+                'the same LC_ALL): time_parse against model, platform timegm and an independent RFC 5322 reading; the evaluator (real and dry run '
+                'alternating) with thresholds at age-1 / age / age+1 seconds (and hours) against that reading and the model; the real binary, real run '
+                'and -d, %d rules x 2 locales over a maildir holding all of them: moved = listed = (age CMP threshold), exit status 0, no diagnostic; '
+                'texts that are no date: left, not listed, a diagnostic each, exit status not 0; non-trivial = accepted/parsed inputs'
+                % (ntz, n, len(TZS), stat['age_cases'], len(conffam.int_literals(rep.tier)), len(conffam.unit_lexemes(rep.tier)), len(pcases),
+                   sum(lstat['texts']['per_instant']), lstat['texts']['tails'], lstat['texts']['refuse'], lstat['texts']['observe'], lstat.get('process_rules', 0)),
         'samples': [{'request': d.line(reqs[i])[:200], 'implementation': impl[i], 'model': model[i], 'specification': spec[i]} for i in rng.sample(range(len(reqs)), 4)],
         'distribution': stat,
-        'correspondence_mismatches': len(d.corr_mismatch) + len(bad_corr),
-        'spec_failures': len(d.spec_fail),
+        'date_text_locale_stage': lstat,
+        'correspondence_mismatches': len(d.corr_mismatch) + len(bad_corr) + sum(len(x.corr_mismatch) for x in ldifs),
+        'spec_failures': len(d.spec_fail) + sum(len(x.spec_fail) for x in ldifs),
     })
+    rep.assumptions += ['date text x locale: the locales are C and C.utf8 (no other locale is installed in this image); the call setlocale(LC_CTYPE, "") of '
+                        'main() is not part of the model - that a real run and -d decide by the age alone in the locale of the environment is observed '
+                        'on the real binary against an RFC 5322 reading of the Date field written in the check (tools/c15locale.py read_date)']
     rep.assumptions += ['file-time fields: the harness gives the file an old mtime and reports the stat times after the evaluation; atime and '
                         'ctime are both "now" on this file system (a swap between those two would not be seen, a swap with mtime is)']
 
@@ -286,6 +306,14 @@ def replay(rep, path):
     import json
     import msgcommon as mc
     j = json.load(open(path))
+    if j.get('family') == c15locale.FAMILY or 'LC_ALL=' in str(j.get('harness', '')):
+        sc = vlib.Scratch()
+        vlib.lean_gate(rep, 'C15', sc, [])
+        if 'locale' not in j:
+            j['locale'] = str(j['harness']).split(' ')[-1]
+        c15locale.replay(rep, j, sc)
+        rep.coverage.update({'evaluations': 1, 'distinct_nontrivial': 1})
+        return
     if str(j.get('level', '')).startswith('real binary'):
         sc = vlib.Scratch()
         vlib.lean_gate(rep, 'C15', sc, [])
